@@ -13,6 +13,7 @@ Oracle : differential - after each call (result, module.errors, exception type a
 from hypothesis import given, seed as hseed, settings, HealthCheck, Phase
 from hypothesis import strategies as st
 
+import pvl
 import pvl.pvl_validate as pv
 import pvl.pvl_translate as pt
 from pvl.grammar import (PVLGrammar, ODLGrammar, PDSGrammar, ISISGrammar,
@@ -31,7 +32,7 @@ from vlib.shrink import shrink_seq
 
 ID = "C16"
 LEVEL = "exploration"
-BUDGET = {"quick": 200, "thorough": 1200}
+BUDGET = {"quick": 300, "thorough": 1200}
 RULE = (
     "case = history of 2-12 calls (parse / encode / decode_simple_value / "
     "pvl_validate dialect parse+encode / pvl_translate encoder) with generated "
@@ -134,6 +135,32 @@ def build_shared(spec):
     return PVLModule(items)
 
 
+def _other_dialect(v):
+    return "ODL" if v in ("default", "ISISv", "ISIS", "PVL") else "ISIS"
+
+
+def outcome_loads_kw(parser, v, text):
+    """pvl.loads() with the instance AND a grammar / decoder of another dialect (the
+    entry point decides what it does with them; the instance must not remember)."""
+    g, d = grammar_decoder(_other_dialect(v))
+    try:
+        m = pvl.loads(text, parser=parser, grammar=g, decoder=d)
+        return ("module", nm.canon(m), list(m.errors))
+    except BudgetExceeded:
+        return ("spins",)
+    except Exception as e:
+        return ("raised", type(e).__name__, str(e))
+
+
+def outcome_dumps_kw(encoder, e, spec):
+    g, d = grammar_decoder(_other_dialect(e))
+    try:
+        return ("text", pvl.dumps(gv.build_module(spec), encoder=encoder, grammar=g,
+                                  decoder=d))
+    except Exception as ex:
+        return ("raised", type(ex).__name__, str(ex))
+
+
 def build_new(spec):
     import pvl.collections as pc
     return gv.build_module(spec, pc.PVLModuleNew, pc.PVLGroupNew, pc.PVLObjectNew)
@@ -177,6 +204,9 @@ def alone(arg):
         if kind == "vparse":
             p.lexer = counting_lexer()
         return _noaddr(outcome_parse(p, call[2]))
+    if kind == "parse-kw":
+        return _noaddr(outcome_loads_kw(make_parser(call[1], lexer_fn=counting_lexer()),
+                                        call[1], call[2]))
     if kind == "decode":
         return _noaddr(outcome_decode(grammar_decoder(call[1])[1], call[2]))
     if kind == "vencode":
@@ -190,6 +220,8 @@ def alone(arg):
         return _noaddr(outcome_encode(fresh, call[2]))
     if kind == "encode-new":
         return _noaddr(outcome_encode(fresh, call[2], build_new(call[2])))
+    if kind == "encode-kw":
+        return _noaddr(outcome_dumps_kw(fresh, call[1], call[2]))
     if kind == "encode-shared":
         return _noaddr(outcome_encode(fresh, call[2], build_shared(call[2])))
     if kind == "encode-q":
@@ -230,6 +262,19 @@ def run_history(history, stop_at_first=False, zyg=None):
             m = build_shared(spec)
             a = outcome_encode(inst[("encoder", e)], spec, m)
             b = outcome_encode(make_encoder(e), spec, m)
+            who = f"encoder:{e}"
+        elif kind == "parse-kw":
+            _, v, text = call
+            a = outcome_loads_kw(inst[("parser", v)], v, text)
+            b = outcome_loads_kw(make_parser(v, lexer_fn=counting_lexer()), v, text)
+            who = f"parser:{v}"
+        elif kind == "encode-kw":
+            _, e, spec = call
+            fresh = make_encoder(e)
+            if e in registered:
+                fresh.add_quantity_cls(c13.Metres, "value", "units")
+            a = outcome_dumps_kw(inst[("encoder", e)], e, spec)
+            b = outcome_dumps_kw(fresh, e, spec)
             who = f"encoder:{e}"
         elif kind == "encode-new":
             # a module of the pvl.new container family (what pvl.new.load returns)
@@ -343,6 +388,8 @@ def calls():
         *[st.tuples(st.just("encode"), st.just(e), specs(e)) for e in ENCODERS],
         st.tuples(st.just("register"), st.sampled_from(ENCODERS), st.none()),
         *[st.tuples(st.just("encode-new"), st.just(e), small_specs(e)) for e in ENCODERS],
+        *[st.tuples(st.just("encode-kw"), st.just(e), small_specs(e)) for e in ENCODERS],
+        st.tuples(st.just("parse-kw"), st.sampled_from(PARSERS), t),
         *[st.tuples(st.just("encode-q"), st.just(e), small_specs(e)) for e in ENCODERS],
         *[st.tuples(st.just("vencode"), st.just(dn),
                     specs({"Omni": "PVL"}.get(dn, dn)))
@@ -473,6 +520,16 @@ def fixed_histories(acc, part=None):
                 acc.case(key=repr(hist), nontrivial=True)
                 if r is not None:
                     acc.fail(r[0], dict(history=[list(c) for c in hist]), r[1])
+            # the same instance handed to pvl.loads() together with another dialect's
+            # grammar and decoder, then used on its own again
+            for t2 in ("# written by ISIS\nb = 2\nc =\nEND\n", "a = 16#-FF#\nEND\n",
+                       "a = \"caf\u00e9\"\nEND\n"):
+                hist = [("parse-kw", v, t1), ("parse", v, t2), ("parse-kw", v, t2),
+                        ("parse", v, t1)]
+                r = run_history(hist)
+                acc.case(key=repr(hist), nontrivial=True)
+                if r is not None:
+                    acc.fail(r[0], dict(history=[list(c) for c in hist]), r[1])
     for dn in VALIDATE_FRESH:
         if part not in (None, "v-" + dn):
             continue
@@ -586,6 +643,14 @@ def fixed_encodes(acc, enc):
             acc.event("fixed-encode-histories")
             if r is not None:
                 acc.fail(r[0], dict(history=[list(c) for c in hist]), r[1])
+    # a call through pvl.dumps() that names another dialect, then plain calls
+    for a in FIXED_SPECS[:14] + [[["g", {"grp": [["x", "a+b"]]}]]]:
+        hist = [("encode", enc, a), ("encode-kw", enc, a), ("encode", enc, a)]
+        r = run_history(hist)
+        acc.case(key=repr(hist), nontrivial=True)
+        acc.event("fixed-encode-histories")
+        if r is not None:
+            acc.fail(r[0], dict(history=[list(c) for c in hist]), r[1])
     # modules of both container families in turn (pvl.load and pvl.new.load results
     # handed to the same encoder)
     blocks = [[["g", {"grp": [["x", 1]]}], ["k", 2]], [["o", {"obj": [["y", "z"]]}]],
